@@ -1,6 +1,6 @@
 /-
 Symbolic (Dolev–Yao) unforgeability theorems for the token logic of Token/Macaroon.lean instantiated
-at `B = Symbolic.Term`.  Cited by Props/C01, C04, C06, C08.
+at `B = Symbolic.Term`.  Cited by Props/C01, C04, C06, C07, C08.
 
 ASSUMPTION of every theorem in this file (stated here, NOT a Lean axiom): perfect cryptography —
 HMAC-SHA256, SHA-256 (also truncated to 16 bytes) and ChaCha20-Poly1305 are free, injective,
@@ -16,6 +16,7 @@ key `atom a`, nonce encoding `n` and caveat encodings `cs` was given to the atta
 Property theorems only; proofs delegate to Lemmas/Symbolic.lean.
 -/
 import Macaroon.Lemmas.Symbolic
+import Macaroon.Props.C07
 
 namespace Macaroon.Props.Symbolic
 open Macaroon Macaroon.Symbolic Macaroon.Symbolic.Term Crypto
@@ -274,6 +275,51 @@ theorem tampered_discharge_rejected
 
 end
 
+/-! ### 7. attestations (C07) against the attacker -/
+
+section
+variable (Sec : Nat → Prop) (Held HeldFin : Nat → Term → List Term → Prop) (H : Term → Prop)
+
+/-- C07 `attestation_no_forgery`: provenance (`Props.C07.attestation_source`) composed with
+`discharge_no_forgery`.  A permission token `m` is accepted under ANY key with discharges whose
+tails the attacker can derive, and an attestation `a` can be obtained from the result.  The trusted
+third parties are honest (`hT`): whatever ticket one of the verifier's trusted keys opens among the
+presented discharges' key-ids holds a SECRET discharge key, and of the proof with that nonce no
+unfinalised state was ever given out.  Then `a` sits at top level of a presented proof token whose
+whole caveat sequence — nothing appended, nothing wrapped — is one that the holder of that secret
+discharge key finalised and issued under that very nonce.  Copying a trusted ticket into an own
+token, naming the trusted location, extending a published proof by hand: none of it yields an
+attestation the trusted party did not place. -/
+theorem attestation_no_forgery
+    (hH : ∀ t, H t → ∀ u, Exp Sec Held HeldFin t u → ¬ S Sec Held HeldFin u)
+    (k : Term) (m : Mac Term) (dms : List (Mac Term)) (tr : Bytes → List Term) (cs : List (Cav Term))
+    (hv : verify k m dms tr = .ok cs) (hmp : m.nonce.proof = false)
+    (hd : ∀ d ∈ dms, Der H d.tail)
+    (hT : ∀ d ∈ dms, ∀ ka ∈ tr d.loc, ∀ dk cs', openTicket ka d.nonce.kid = .ok dk cs' →
+          ∃ rn, dk = atom rn ∧ Sec rn ∧ ∀ cs₁, ¬ Held rn (encNonceT d.nonce) cs₁)
+    (a : Cav Term) (ha : a ∈ C07.obtainable cs) :
+    a.isAttestation = true ∧
+    ∃ d ∈ dms, d.nonce.proof = true ∧ a ∈ d.cavs ∧
+      ∃ rn, Sec rn ∧ HeldFin rn (encNonceT d.nonce) (d.cavs.map encT) := by
+  obtain ⟨hatt, hcase⟩ := C07.attestation_source k m dms tr cs hv a ha
+  refine ⟨hatt, ?_⟩
+  rcases hcase with ⟨hp, _⟩ | ⟨p, hp, d, hdp, hpr, had, htr, r, hvf, _⟩
+  · rw [hmp] at hp; cases hp
+  · obtain ⟨_, _, ticket, _, hb⟩ := Lemmas.mem_pendOf dms _ _ p hp
+    have hin : d ∈ dms := ((Lemmas.mem_byTicket dms ticket p.ds hb).2 d hdp).1
+    obtain ⟨ka, hka, dk, cs', hopen, hct⟩ := (C07.trust_needs_matching_ticket (tr d.loc) d.nonce.kid p.key).1 htr
+    obtain ⟨rn, hdk, hsec, hnone⟩ := hT d hin ka hka dk cs' hopen
+    have hkey : p.key = atom rn := by
+      have := (LawfulCrypto.ctEq_iff p.key dk).mp hct
+      rw [this, hdk]
+    rw [hkey] at hvf
+    refine ⟨d, hin, hpr, had, rn, hsec, ?_⟩
+    rcases discharge_no_forgery Sec Held HeldFin H hH rn hsec d _ _ _ (hd d hin) hvf with ⟨cs₀, hheld, _⟩ | ⟨_, hfin⟩
+    · exact absurd hheld (hnone cs₀)
+    · exact hfin
+
+end
+
 /-! ### 3. honest histories satisfy the exposure hypothesis; 6. nonces are fresh -/
 
 section
@@ -498,6 +544,47 @@ theorem ex_forged_accepted : verify (atom 0) ex3M1 [exForged] (fun _ => []) = .o
 /-- the forged discharge is not an extension of anything the third party issued: its nonce is new -/
 example : exForged.nonce.rnd ≠ ex3DF.nonce.rnd := by decide
 
+/-! C07: `attestation_no_forgery` is not vacuous -/
+
+/-- a trusted third party's proof with an identity, finalised -/
+def exDA : Mac Term := encodeState (add ex3D [.plain (.flyioUserID 7)]).1
+def exTrust : Bytes → List Term := fun loc => if loc = [9] then [atom 5] else []
+def exHeldFinA : Nat → Term → List Term → Prop :=
+  fun a n cs => a = 11 ∧ n = encNonceT exDA.nonce ∧ cs = exDA.cavs.map encT
+
+theorem exDA_tail : exDA.tail = fin (chain (mac (atom 11) (encNonceT exDA.nonce)) (exDA.cavs.map encT)) := by rfl
+
+/-- non-vacuity of `attestation_no_forgery`: the hypotheses hold for the token of the running
+example, the trusted party's attesting proof and a verifier trusting `atom 5` for its location;
+the identity is obtainable, and the conclusion names the issued proof -/
+example : ∃ d ∈ [exDA], d.nonce.proof = true ∧ Cav.flyioUserID 7 ∈ d.cavs ∧
+      ∃ rn, ex3Sec rn ∧ exHeldFinA rn (encNonceT d.nonce) (d.cavs.map encT) :=
+  (attestation_no_forgery ex3Sec (fun _ _ _ => False) exHeldFinA (· = exDA.tail)
+    (by
+      rintro t rfl u e
+      rw [exDA_tail] at e
+      cases e
+      rintro (⟨a, _, h⟩ | ⟨a, n, cs, _, h, _⟩ | ⟨a, n, cs, _, h, _, hno⟩)
+      · cases h
+      · have := chain_isMac (mac (atom a) n) cs rfl; rw [← h] at this; cases this
+      · injection h with h
+        obtain ⟨rfl, rfl, rfl⟩ := chain_unique h
+        exact hno ⟨rfl, rfl, rfl⟩)
+    (atom 0) ex3M1 [exDA] exTrust [.flyioUserID 7] (by rfl) (by rfl)
+    (by intro d hd; simp only [List.mem_singleton] at hd; subst hd; exact .held rfl)
+    (by
+      intro d hd ka hka dk cs' ho
+      simp only [List.mem_singleton] at hd; subst hd
+      have hl : exDA.loc = [9] := by rfl
+      rw [hl] at hka
+      have : ka = atom 5 := by simpa [exTrust] using hka
+      subst this
+      have : dk = atom 11 := by
+        have h2 : openTicket (atom 5) exDA.nonce.kid = .ok (atom 11) [.isUser 3] := by rfl
+        rw [h2] at ho; injection ho with h _; exact h.symm
+      exact ⟨11, this, Or.inr (Or.inr rfl), fun _ h => h⟩)
+    (.flyioUserID 7) (by decide)).2
+
 end examples
 
 #print axioms sym_verify_tail
@@ -521,6 +608,7 @@ end examples
 #print axioms mint_nonces_distinct
 #print axioms run_no_forgery
 #print axioms run_no_forgery_closed
+#print axioms attestation_no_forgery
 #print axioms ex3Run
 #print axioms ex_rn_leaks
 #print axioms ex_forged_derivable
